@@ -318,6 +318,33 @@ def hmac_oracle(ctx):
                 return
 
 
+def replay_across_epochs(ctx):
+    """Real client/server Transports: record the client's first encrypted packets of key epoch 1, re-key, and
+    replay them to the server as the first packets of epoch 2 (strict-kex resets the sequence numbers, so
+    only fresh keys / IVs protect against this)."""
+    rng = ctx.rng
+    plans = [(None, None), ("aes128-gcm@openssh.com", None), ("aes256-cbc", "hmac-sha2-512-etm@openssh.com")]
+    if ctx.thorough:
+        plans += [("aes256-ctr", "hmac-sha1"), ("aes256-gcm@openssh.com", None), ("3des-cbc", "hmac-md5")]
+    for ci, ma in plans:
+        res = c01.transport_session(ctx, "none", ci, ma, replay_across_epochs=True)
+        if res["error"] is not None or "replayed" not in res:
+            res = c01.transport_session(ctx, "none", ci, ma, replay_across_epochs=True)   # retry once
+        ctx.count(("epoch-replay", ci, ma, res.get("replayed", {}).get("bytes")), kind="epoch-replay")
+        if "replayed" not in res:
+            ctx.notes.append("epoch replay not performed for %s/%s: %s" % (ci, ma, res["error"]))
+            continue
+        delivered = res["server_delivered_after_replay"]
+        i = c01.first_deviation(res["s_recv"], res["c_sent"])
+        if delivered or i is not None:
+            ctx.fail("replay-across-epochs-accepted",
+                     "ciphertext recorded in key epoch 1 was accepted when replayed at the start of epoch 2 "
+                     "(keys / IVs not fresh after re-key)",
+                     case={"cipher": ci, "mac": ma, "replayed": res["replayed"], "steps": res["steps"]},
+                     expected="MAC / tag failure, nothing delivered",
+                     observed={"delivered": delivered, "server_still_active": res["server_active_after_replay"]})
+
+
 def real_search(ctx):
     rng = ctx.rng
     suites = real_suites()
@@ -370,6 +397,7 @@ def run(ctx):
                      expected=(a == b), observed=util.constant_time_bytes_eq(a, b))
 
     hmac_oracle(ctx)
+    replay_across_epochs(ctx)
     real_search(ctx)
     ctx.exhaustive = False
 
